@@ -397,7 +397,7 @@ def rule_store_contract(ctx: Ctx, out: Collector) -> None:
                     storage = make_storage(p, st, contents)
                     interp = Interp(p, oracle)
                     interp.call_unit(m, list(ids), {}, storage)
-                    return tuple((s, k, presence_of(storage.attrs[s], k)) for s in stores for k in ids)
+                    return tuple((s, k, presence_of(storage.attrs[s], k, p)) for s in stores for k in ids)
                 n_states += 1
                 for o in enumerate_outcomes(run):
                     if o[0] != 'value':
@@ -441,7 +441,7 @@ def rule_store_contract(ctx: Ctx, out: Collector) -> None:
                 interp = Interp(p, oracle)
                 interp.call_unit(m, ['K', 7] if value_is_param else ['K'], {}, storage)
                 hd = storage.attrs[fld]
-                return presence_of(hd, 'K'), hd.attrs['data'].get('K')
+                return presence_of(hd, 'K', p), hd.attrs['data'].get('K')
 
             for o in enumerate_outcomes(run):
                 good = o[0] == 'value' and o[1][0] == 'visible' and (o[1][1] == 7 or not value_is_param)
@@ -712,6 +712,14 @@ def rule_readiness_switch_indirection(ctx: Ctx, out: Collector) -> None:
                 'switch decided (C), C has a final result':
                     ({'node_results': {'C': ('visible', 1), 'D': ('visible', 'a')},
                       'switch_results': {'SW': ('visible', AObj(case_cls, {'label': 'a', 'node_id': 'C'}))}}, True),
+                # a re-iteration re-armed the switch: the verdict of the previous iteration is hidden, the case it named still holds
+                # its (outside the subgraph: visible) result - the switch is undecided in this iteration
+                're-armed switch: the previous verdict (C) is hidden, C still has a visible result':
+                    ({'node_results': {'C': ('visible', 1), 'D': ('visible', 'b')},
+                      'switch_results': {'SW': ('hidden', AObj(case_cls, {'label': 'a', 'node_id': 'C'}))}}, False),
+                're-armed switch: the previous verdict (C) and the result of C are hidden':
+                    ({'node_results': {'C': ('hidden', 1), 'D': ('visible', 'b')},
+                      'switch_results': {'SW': ('hidden', AObj(case_cls, {'label': 'a', 'node_id': 'C'}))}}, False),
             }
             problems = []
             table = {}
